@@ -52,8 +52,17 @@ def field(rnd, name, i, tid, positional_ok=False, last=False):
         ann["switch"] = True
     if rnd.random() < 0.1:
         ann["hide"] = True
+    # an environment variable to fall back to, and usage-line decorations
+    if ty != "unit" and rnd.random() < 0.15:
+        ann["env"] = f"BPAF_VERIF_D{i}"
+    r2 = rnd.random()
+    if r2 < 0.1:
+        ann["hide_usage"] = True
+    elif r2 < 0.2:
+        ann["custom_usage"] = f"CU{i}"
     if positional_ok and ty in ("T", "opt", "vec") and rnd.random() < 0.5:
-        ann.update(positional=True, posmeta=rnd.choice(["", f"POS{i}"]), short="none", long="none", argument="", fallback=False)
+        ann.update(positional=True, posmeta=rnd.choice(["", f"POS{i}"]), short="none", long="none", argument="", fallback=False, env="",
+                   hide_usage=False, custom_usage="")
         if not last and ty != "T":
             ty = "T"
     return {"name": name, "chars": chars(name), "ty": ty, "base": base, "ann": ann, "help": f"HELP-{tid}-{name}" if rnd.random() < 0.8 else ""}
@@ -148,6 +157,7 @@ def enum_def(rnd, tid, commands):
                     f["ty"] = "T"          # the first field of an alternative is required so that the alternative has an owner
                     f["ann"]["switch"] = False
                 f["ann"]["hide"] = False
+                f["ann"]["hide_usage"], f["ann"]["custom_usage"] = False, ""
                 f["ann"]["short"], f["ann"]["long"] = ("none", "none")
                 fields.append(f)
         ann = {"short": "none", "long": "none"}
@@ -228,14 +238,20 @@ def field_attrs(f):
         items.append("long")
     elif a["long"] != "none":
         items.append(f'long("{a["long"]}")')
+    if a.get("env"):
+        items.append(f'env("{a["env"]}")')
     if a["switch"]:
         items.append("switch")
     if a["argument"]:
         items.append(f'argument("{a["argument"]}")')
     if a["fallback"]:
         items.append("fallback(7)")
+    if a.get("hide_usage"):
+        items.append("hide_usage")
+    if a.get("custom_usage"):
+        items.append(f'custom_usage("{a["custom_usage"]}")')
     if a["hide"]:
-        items.append("hide")
+        items.append("hide")            # annotations apply in the order written: hidden last, as the builder does
     s = ""
     if f["help"]:
         s += f"    /// {f['help']}\n"
